@@ -29,15 +29,15 @@ static void profile(const char *p)
 {
 	profile_t f; memset(&f, 0, sizeof f);
 	f.codecs = 15; f.apis = 3; f.finish = 2; f.cb = 2; f.dups = 1; f.per_mask = 1;
-	f.exh_n_quick = 11; f.exh_n_thorough = 14; f.samples_quick = 150; f.samples_thorough = 3000;
+	f.exh_n_quick = 12; f.exh_n_thorough = 15; f.samples_quick = 500; f.samples_thorough = 5000;
 	if (!strcmp(p, "C01")) { f.mon = MON_C01; }
-	else if (!strcmp(p, "C02")) { f.mon = MON_C02 | MON_C01; f.codecs = 7; f.cb = 0; f.exh_n_quick = 10; f.exh_n_thorough = 15; f.per_mask = 2; }
-	else if (!strcmp(p, "C03")) { f.mon = MON_C03; f.codecs = 8; f.finish = 1; f.need_oracle = 1; f.cb = 0; f.per_mask = 2; f.exh_n_quick = 12; f.exh_n_thorough = 16; f.samples_quick = 400; f.samples_thorough = 6000; }
-	else if (!strcmp(p, "C04")) { f.mon = MON_C04; f.codecs = 8; f.apis = 1; f.finish = 0; f.need_oracle = 1; f.cb = 2; f.per_mask = 1; f.exh_n_quick = 11; f.exh_n_thorough = 14; }
-	else if (!strcmp(p, "C07")) { f.mon = MON_C07; f.roles = 1; f.stops = 1; f.lens = 1; f.exh_n_quick = 7; f.exh_n_thorough = 10; f.samples_quick = 60; f.samples_thorough = 1500; }
-	else if (!strcmp(p, "C08")) { f.mon = MON_C08; f.roles = 1; f.stops = 1; f.exh_n_quick = 9; f.exh_n_thorough = 12; }
-	else if (!strcmp(p, "C10")) { f.mon = MON_C10; f.need_oracle = 1; }
-	else if (!strcmp(p, "C11")) { f.mon = MON_C11 | MON_C01; f.cb = 1; f.need_oracle = 1; }
+	else if (!strcmp(p, "C02")) { f.mon = MON_C02 | MON_C01; f.codecs = 7; f.cb = 0; f.exh_n_quick = 11; f.exh_n_thorough = 15; f.per_mask = 2; }
+	else if (!strcmp(p, "C03")) { f.mon = MON_C03; f.codecs = 8; f.finish = 1; f.need_oracle = 1; f.cb = 0; f.per_mask = 2; f.exh_n_quick = 13; f.exh_n_thorough = 16; f.samples_quick = 800; f.samples_thorough = 8000; }
+	else if (!strcmp(p, "C04")) { f.mon = MON_C04; f.codecs = 8; f.apis = 1; f.finish = 0; f.need_oracle = 1; f.cb = 2; f.per_mask = 2; f.exh_n_quick = 12; f.exh_n_thorough = 15; }
+	else if (!strcmp(p, "C07")) { f.mon = MON_C07; f.roles = 1; f.stops = 1; f.lens = 1; f.exh_n_quick = 8; f.exh_n_thorough = 11; f.samples_quick = 120; f.samples_thorough = 1500; }
+	else if (!strcmp(p, "C08")) { f.mon = MON_C08; f.roles = 1; f.stops = 1; f.exh_n_quick = 11; f.exh_n_thorough = 13; f.per_mask = 2; }
+	else if (!strcmp(p, "C10")) { f.mon = MON_C10; f.need_oracle = 1; f.per_mask = 2; }
+	else if (!strcmp(p, "C11")) { f.mon = MON_C11 | MON_C01; f.cb = 1; f.need_oracle = 1; f.per_mask = 2; }
 	else rep_fatal("p_codec: no profile for %s", p);
 	g_pf = f;
 }
